@@ -54,7 +54,7 @@ def arg_permutation_rule(ctx: Ctx, G: CallGraph, fns: Iterable[FunctionInfo], ru
             bound.update({k: v for k, v in kws.items() if k in params})
             names = [bound.get(p) for p in params]
             # instance: interface parameter names stay (they are what the rule is about), other spellings are hidden
-            inst = f"{name}({', '.join((x if x in params else '_') if x else '?' for x in names)})"
+            inst = f"{name}(...) argument order"
             if None in names:
                 ctx.passed(rule, fi, node, f"{name}(...) arguments", "arguments are not plain parameter names")
                 continue
